@@ -230,7 +230,7 @@ pub fn run_c01(a: &Args) {
                     // a failed call that nevertheless changed something is property C04's finding;
                     // the rest of this history would only echo it
                     if snap(&m) != s0 || depths(&m) != d0 {
-                        let c = "c04-leak".to_string();
+                        let c = format!("c04-leak:{}", kind(&op));
                         or.fail(&c, json!({"history": ops_json(&ops_done)}), format!("{k} returned Err but changed the workbook or the history (see C04)"));
                         failed_classes.push(c);
                         break;
@@ -346,7 +346,7 @@ fn c02_triples(a: &Args, rng: &mut Rng, cs: &mut Cases, or: &mut Oracle, st: &mu
             ops_done.push(op.clone());
             match guarded(|| apply_op(&mut m, &op)) {
                 Err(()) => { let c = format!("panic:{k}"); or.fail(&c, json!({"history": ops_json(&ops_done)}), format!("{k} panicked")); failed_classes.push(c); break; }
-                Ok(Err(_)) => { st.err += 1; if snap(&m) != s0 || depths(&m) != d0 { let c = "c04-leak".to_string(); or.fail(&c, json!({"history": ops_json(&ops_done)}), format!("{k} returned Err but changed the workbook or the history (see C04)")); failed_classes.push(c); break; } continue; }
+                Ok(Err(_)) => { st.err += 1; if snap(&m) != s0 || depths(&m) != d0 { let c = format!("c04-leak:{}", kind(&op)); or.fail(&c, json!({"history": ops_json(&ops_done)}), format!("{k} returned Err but changed the workbook or the history (see C04)")); failed_classes.push(c); break; } continue; }
                 Ok(Ok(())) => {}
             }
             st.ok += 1;
@@ -426,7 +426,7 @@ pub fn run_c02(a: &Args) {
                     if !matches!(op, Op::Undo | Op::Redo) {
                         let dd = depths(&m);
                         if dd == d0 && snap(&m) == cur.0 { continue; }
-                        let c = "c04-leak".to_string();
+                        let c = format!("c04-leak:{}", kind(&op));
                         or.fail(&c, json!({"history": ops_json(&ops_done)}), format!("{k} returned Err but changed the workbook or the history (see C04)"));
                         failed_classes.push(c);
                         break;
@@ -549,7 +549,7 @@ pub fn run_c03(a: &Args) {
             if res_class == "ok" { st.ok += 1 } else { st.err += 1 }
             // a call that failed must not have enqueued anything for the replicas
             if res_class == "err" && !matches!(op, Op::Undo | Op::Redo) && (d1 != d0 || snapshot(p.get_model(), &opts) != s_before) {
-                let c = "c04-leak".to_string();
+                let c = format!("c04-leak:{}", kind(&op));
                 or.fail(&c, json!({"history": ops_json(&ops_done)}), format!("{k} returned Err but changed the workbook, the history or the outgoing queue (see C04)"));
                 failed_classes.push(c);
                 bad = true;
